@@ -146,6 +146,10 @@ def mk_universe(u):
     zones = ['America/New_York', 'Asia/Tokyo', 'Europe/London', 'Australia/Sydney']
     # 'tz': the same entry instants, written in other time zones
     when = (lambda i, e: ts(e).tz_convert(zones[i % 4])) if 'tz' in flags else (lambda i, e: ts(e))
+    if 'pydt' in flags:
+        # the same instants as standard-library datetime objects (time-zone aware)
+        when0 = when
+        when = lambda i, e: when0(i, e).to_pydatetime()
     return DynamicUniverse(dict((a, (missing if e is None else when(i, e))) for i, (a, e) in enumerate(u[1])))
 
 
@@ -186,7 +190,7 @@ def csv_handler(m, universe, keep=None, share_handler=False):
 LAST = {}
 
 
-def run_session(c, shared_ds=None, reuse_universe=False):
+def run_session(c, shared_ds=None, reuse_universe=False, reuse_signals=False):
     warnings.simplefilter('ignore')
     cfg = c['cfg']
     start, end = ts(cfg['start']), ts(cfg['end'])
@@ -218,6 +222,10 @@ def run_session(c, shared_ds=None, reuse_universe=False):
         if cfg['alpha'][0] == 'volfilter':
             sigs['vol'] = VolatilitySignal(start, universe, list(lbs))
         signals = SignalsCollection(sigs, dh)
+        if reuse_signals and 'signals' in LAST:
+            # the SignalsCollection OBJECT (and its signals) of the previous session serves this one too
+            signals, tracked_signal[0] = LAST['signals']
+        LAST['signals'] = (signals, tracked_signal[0])
     a = cfg['alpha']
     if a[0] == 'fixed':
         alpha = FixedSignalsAlphaModel(dict((k, v) for k, v in a[1]))
@@ -345,7 +353,7 @@ def handler(c):
                             src.get_ask(q, asset)
                         except Exception:
                             pass
-        b, _ = run_session(c, shared_ds=ds, reuse_universe=bool(c.get('share_universe')))
+        b, _ = run_session(c, shared_ds=ds, reuse_universe=bool(c.get('share_universe')), reuse_signals=bool(c.get('share_signals')))
         return {'first': a, 'second': b}
     if c.get('mode') == 'after_other':
         # session B on a fresh data source vs on a data source that already served a different session A
